@@ -28,6 +28,7 @@ structure St where
   segs : List Seg := []
   inHist : Bool := false
   lastAllNoop : Bool := false    -- the last plan of the history consisted of no-op singletons only
+  diverged : Bool := false       -- model and implementation disagreed earlier in this history: the states differ
 
 def parseOpts (ws : List String) : Option (Options × FOptions) :=
   match ws with
@@ -192,7 +193,10 @@ def doPlan (o : Options) (fo : FOptions) (segs : List Seg) (scoresStr implLine :
           | none =>
             -- quiescence: no task ⇒ #eligible within the budget the planner itself computed
             let b := (implBudget impl).getD p.budget
-            if its.isEmpty && ((eligibles o segs).length : Int) > b then "bad:quiescent-over-budget"
+            -- (theorem quiescent_within_budget; with the repaired roster guard a lone eligible segment, or
+            -- SegmentsPerMergeTask = 1, also end the planning)
+            let lone := o.skipNoop && ((eligibles o segs).length == 1 || o.segmentsPerMergeTask == 1)
+            if its.isEmpty && ((eligibles o segs).length : Int) > b && !lone then "bad:quiescent-over-budget"
             -- a merge of one deletion-free segment into itself can never make progress
             -- (one such task beside useful ones is wasted work: counted as branch `noop-singleton-task`)
             else if histOptionsSane o && sizesSane segs && allNoop its then "bad:plan-makes-no-progress"
@@ -270,7 +274,11 @@ def c19step (st : St) (op : String) (impl : String) : St × String :=
       let sc := match op.splitOn " | " with | [_, s] => s | _ => "-"
       let r := doPlan st.o st.fo st.segs sc impl
       let segs' := executeAll next st.segs r.tasks
-      ({ st with segs := segs', lastAllNoop := r.allNoop }, r.result ++ " after " ++ sums segs' ++ sep ++ r.verdict)
+      let res := r.result ++ " after " ++ sums segs'
+      -- the oracle is evaluated on the implementation's tasks against the MODEL's state: once the two have
+      -- disagreed (reported by ./check as a broken correspondence) later verdicts of this history mean nothing
+      let verdict := if st.diverged then "na br=hist-diverged" else r.verdict
+      ({ st with segs := segs', lastAllNoop := r.allNoop, diverged := st.diverged || res != impl }, res ++ sep ++ verdict)
     | none => (st, "bad-op" ++ sep ++ "na")
   | "add" :: _ =>
     match parseSegs (op.drop 4).toString with
@@ -286,16 +294,22 @@ def c19step (st : St) (op : String) (impl : String) : St × String :=
       let segs' := replaceAt st.segs i { s with liveSize := s.liveSize - d }
       ({ st with segs := segs' }, sums segs' ++ sep ++ "ok")
     | _, _ => (st, "bad-op" ++ sep ++ "na")
-  | ["settled", _, _] =>
+  | ["settled", cap, nrounds] =>
     -- histories are judged for `histOptionsSane` options (the predicate of the convergence theorems'
     -- harness side); a history that does not settle because the planner keeps returning one-segment
     -- rewrites of deletion-free segments is the finding `plan-only-noop-singletons`
     let v :=
       if impl.startsWith "no-quiescence" then
-        (if !histOptionsSane st.o then "na br=hist-unsettled-options-not-sane"
+        (if st.diverged then "na br=hist-diverged"
+         else if !histOptionsSane st.o then "na br=hist-unsettled-options-not-sane"
          else if st.lastAllNoop then "bad:no-quiescence-noop-loop" else "bad:no-quiescence")
       else "ok br=settled"
-    (st, sums st.segs ++ sep ++ v)
+    -- `settled <cap> <rounds>`: the harness stopped after <rounds> planning rounds; reaching the cap without an
+    -- empty plan is the observation "no-quiescence"
+    let pre := match cap.toNat?, nrounds.toNat? with
+      | some c, some r => if r ≥ c then "no-quiescence " else ""
+      | _, _ => ""
+    (st, pre ++ sums st.segs ++ sep ++ v)
   | "score" :: _ =>
     match (op.drop 6).toString.splitOn " | " with
     | [os, ss] =>
